@@ -31,6 +31,7 @@ EXPLANATION = (
     "from_path, recurse} on every path; from_path creates exactly one leaf; insert_group only writes a group slot."
     " R12.5 run-time half of 'empty args lists register nothing': the EntryTree::retain pass that drops argument leaves without arguments and childless parents runs unconditionally before every consumer of the tree. Registrations, constructor slots, the push function, the argument cell and the constant table are identified by type and role in the expansion, not by the macro's internal identifiers. R12.6 a benchmark is found at its module path: module_path_components is module_path.split('::'); path_components is module path, then the group's raw name, then - exactly when there is a const value - the type's display name; from_benches uses the former for plain and the latter for generic entries.")
 EXPLANATION += (' R12.7 EntryType::display_name finds the generic boundary `<` from the left.')
+EXPLANATION += (' R12.8 (= R17.1/R17.3) the BenchArgs shared by all instantiations caches only instantiation-independent data.')
 NOT_DECIDED = ["effects of the linker / .init_array at load time; independence of constructor order (load-time property)",
                "programs outside the analysed corpus (the corpus covers each attribute form of the quantifier at least once)"]
 CONFIGS = ["K1"]
